@@ -307,6 +307,7 @@ type storeEnv struct {
 var caseCounter int
 
 func newStoreEnv(req map[string]any) (*storeEnv, error) {
+	setOpTimeout(req)
 	scratch, _ := req["scratch"].(string)
 	if scratch == "" {
 		return nil, fmt.Errorf("scratch directory missing")
@@ -377,6 +378,16 @@ func quiesce(dir string) {
 		}
 		prev = cur
 		time.Sleep(25 * time.Millisecond)
+	}
+}
+
+// opTimeout is the time after which an operation is reported as hanging (request field "timeout_s", default 20 s).
+var opTimeout = 20 * time.Second
+
+func setOpTimeout(req map[string]any) {
+	opTimeout = 20 * time.Second
+	if f, ok := req["timeout_s"].(float64); ok && f > 0 {
+		opTimeout = time.Duration(f * float64(time.Second))
 	}
 }
 
@@ -503,7 +514,7 @@ func init() {
 		if bin != "" {
 			target2.BinOutput = model.NewOutput("file", bin)
 		}
-		lerr, hung := withTimeout(20*time.Second, func() error { return reg2.LoadOutputs(env.ctx, target2, result, nil) })
+		lerr, hung := withTimeout(opTimeout, func() error { return reg2.LoadOutputs(env.ctx, target2, result, nil) })
 		switch {
 		case hung:
 			res["load"] = "hang"
@@ -541,7 +552,7 @@ func init() {
 			if bin != "" {
 				target3.BinOutput = model.NewOutput("file", bin)
 			}
-			l2err, hung2 := withTimeout(20*time.Second, func() error { return reg3.LoadOutputs(env.ctx, target3, result, nil) })
+			l2err, hung2 := withTimeout(opTimeout, func() error { return reg3.LoadOutputs(env.ctx, target3, result, nil) })
 			switch {
 			case hung2:
 				res["load2"] = "hang"
@@ -977,7 +988,7 @@ func init() {
 				tc := caching.NewTargetResultCache(pb)
 				for _, t := range targets {
 					var res *gen.TargetResult
-					werr, hung := withTimeout(30*time.Second, func() error {
+					werr, hung := withTimeout(opTimeout, func() error {
 						var e error
 						res, e = reg.WriteOutputs(env.ctx, t.target(), nil)
 						return e
@@ -1021,7 +1032,7 @@ func init() {
 				for _, o := range t.outs {
 					os.RemoveAll(filepath.Join(env.ws, t.pkg, o.Identifier))
 				}
-				rerr, hung := withTimeout(20*time.Second, func() error { return reg.LoadOutputs(env.ctx, t.target(), cached, nil) })
+				rerr, hung := withTimeout(opTimeout, func() error { return reg.LoadOutputs(env.ctx, t.target(), cached, nil) })
 				fr["ok"] = rerr == nil && !hung
 				if rerr != nil {
 					fr["msg"] = rerr.Error()
@@ -1480,7 +1491,7 @@ func init() {
 						return nil, err
 					}
 					var res *gen.TargetResult
-					werr, hung := withTimeout(30*time.Second, func() error {
+					werr, hung := withTimeout(opTimeout, func() error {
 						var e error
 						res, e = reg.WriteOutputs(env.ctx, t.target(), nil)
 						if e == nil {
@@ -1524,7 +1535,7 @@ func init() {
 					for _, o := range t.outs {
 						os.RemoveAll(filepath.Join(env.ws, t.pkg, o.Identifier))
 					}
-					rerr, hung := withTimeout(30*time.Second, func() error { return reg.LoadOutputs(env.ctx, t.target(), cached, nil) })
+					rerr, hung := withTimeout(opTimeout, func() error { return reg.LoadOutputs(env.ctx, t.target(), cached, nil) })
 					switch {
 					case hung:
 						r["outcome"] = "hang"
